@@ -378,7 +378,18 @@ func c10Image(p *Prog, r *Report) {
 		if isNilConst(retVal(ret, 0)) {
 			continue
 		}
-		r.Check(onlyVia(hf, ret.Block(), alF), "D4-image", fmt.Sprintf("%s:node-return#%d", fa.key, i), p.Pos(ret.Pos()), "a node is returned only when copied < MaxFileBytes", "a file node can be returned although the copy reached the byte limit")
+		okRet := onlyVia(hf, ret.Block(), alF)
+		if !okRet && onlyVia(hf, ret.Block(), append(append([]Edge{}, alF...), alH...)) {
+			// the comparison is passed on every path; no feasible path leads from its limit edge to
+			// this return (the error the limit edge sets is tested before a node is built)
+			okRet = true
+			for _, ed := range alH {
+				if findPathPSEdge(ed, func(in ssa.Instruction) bool { return in == ssa.Instruction(ret) }, nil) != nil {
+					okRet = false
+				}
+			}
+		}
+		r.Check(okRet, "D4-image", fmt.Sprintf("%s:node-return#%d", fa.key, i), p.Pos(ret.Pos()), "a node is returned only when copied < MaxFileBytes", "a file node can be returned although the copy reached the byte limit")
 	}
 	// limit edge returns ErrFileReadLimitExceeded
 	for _, ed := range alH {
